@@ -172,10 +172,14 @@ def run(tier, seed, res):
     code = ("import sys; sys.path.insert(0, %r); import warnings; warnings.simplefilter('ignore'); "
             "from pregex.meta.essentials import IPv4, IPv6; import json; IPv4(); IPv6(); "
             "print(json.dumps({'v4': str(IPv4(is_extensible=True)), 'v6': str(IPv6(is_extensible=True))}))") % os.path.join(REPO, 'src')
-    out = subprocess.run(['/venv/bin/python', '-c', code], capture_output=True, text=True)
-    if out.returncode != 0:
-        raise MachineryError('cannot obtain the emitted IP patterns: ' + out.stderr[-500:])
-    pats = json.loads(out.stdout.strip().splitlines()[-1])
+    variants = {'v4': {}, 'v6': {}}
+    for hs in ((0, 2, 5) if tier == 'quick' else (0, 1, 2, 3, 5, 6, 10, 13)):
+        out = subprocess.run(['/venv/bin/python', '-c', code], capture_output=True, text=True, env=dict(os.environ, PYTHONHASHSEED=str(hs)))
+        if out.returncode != 0:
+            raise MachineryError('cannot obtain the emitted IP patterns: ' + out.stderr[-500:])
+        got = json.loads(out.stdout.strip().splitlines()[-1])
+        for kd in ('v4', 'v6'):
+            variants[kd].setdefault(got[kd], hs)           # the emitted text may depend on the hash seed (class unions)
     cov = {'automaton_path': {}}
     # DFAEquivalentToPredicate on short strings
     for kind, alpha, inv, ml in (('v4', {48, 49, 50, 53, 54, 46}, 'V4Equiv', 7 if tier == 'quick' else 8), ('v6', {49, 97, 58}, 'V6Equiv', 9 if tier == 'quick' else 11)):
@@ -187,9 +191,9 @@ def run(tier, seed, res):
         res.runs.append({'name': 'MC_IPRef ' + kind, 'distinct': r['distinct'], 'generated': r['generated'], 'invariants': [inv]})
         if r['violated']:
             res.model_violations.append(('MC_IPRef ' + kind, r['violated'], r['out'][-2000:]))
-    for kind in ('v4', 'v6'):
+    for kind, pat_text, hseed in [(kd, t, h) for kd in ('v4', 'v6') for t, h in variants[kd].items()]:
         try:
-            doc, n, nat, nrep = nfa_json(pats[kind], kind)
+            doc, n, nat, nrep = nfa_json(pat_text, kind)
         except Unsupported as e:
             cov['automaton_path'][kind] = 'unavailable: construct %s not supported by the extractor' % e
             continue
@@ -214,7 +218,7 @@ def run(tier, seed, res):
             nfa_acc = doc['final'] in set(st['S'])
             wit.append((w, nfa_acc, st['r']))
         chk = subprocess.run(['/venv/bin/python', '-c', WITNESS_CODE % (os.path.join(REPO, 'src'), kind)],
-                             input=json.dumps([w for w, _, _ in wit]), capture_output=True, text=True)
+                             input=json.dumps([w for w, _, _ in wit]), capture_output=True, text=True, env=dict(os.environ, PYTHONHASHSEED=str(hseed)))
         if chk.returncode != 0:
             raise MachineryError('witness replay failed: ' + chk.stderr[-800:])
         verdicts = json.loads(chk.stdout.strip().splitlines()[-1])
@@ -227,15 +231,15 @@ def run(tier, seed, res):
             if lib != refacc:
                 res.agg.failures.append({'property': 'C18', 'kind': 'ipproduct', 'replay_module': 'ipproduct', 'facet': 'language',
                                          'term': ('IPv4' if kind == 'v4' else 'IPv6') + '(is_extensible=True)', 'spelling': 'class',
-                                         'text': w, 'ipkind': kind,
+                                         'text': w, 'ipkind': kind, 'hashseed': hseed,
                                          'detail': {'text': w, 'library_accepts': lib, 'reference_accepts': refacc, 'ipaddress': ipa}})
             if libplain != refacc:
                 # the non-extensible pattern only adds assertions about the surroundings: on a whole string they are vacuous
                 res.agg.failures.append({'property': 'C18', 'kind': 'ipproduct', 'replay_module': 'ipproduct', 'facet': 'language',
                                          'term': ('IPv4' if kind == 'v4' else 'IPv6') + '()', 'spelling': 'class',
-                                         'text': w, 'ipkind': kind,
+                                         'text': w, 'ipkind': kind, 'hashseed': hseed,
                                          'detail': {'text': w, 'library_accepts': libplain, 'reference_accepts': refacc, 'ipaddress': ipa}})
-        cov['automaton_path'][kind] = 'product explored: %d product states, NFA %d states, %d atoms, %d symbols' % (r['distinct'], n, nat, nrep)
+        cov['automaton_path']['%s (hash seed %s)' % (kind, hseed)] = 'product explored: %d product states, NFA %d states, %d atoms, %d symbols' % (r['distinct'], n, nat, nrep)
         res.agg.samples.append({'product_witness': wit[len(wit) // 2][0], 'kind': kind})
     return cov
 
@@ -277,11 +281,89 @@ print(json.dumps(out))
 
 def replay_record(rec):
     from .farm import REPO
+    if rec.get('kind') == 'ipfile':
+        import tempfile, shutil
+        class _R:
+            pass
+        r = _R(); r.agg = _R(); r.agg.failures = []; r.agg.stats = {}
+        d = tempfile.mkdtemp(prefix='pregex-verif.replay.', dir=os.environ.get('VERIF_SCRATCH', '/var/tmp'))
+        try:
+            rows = file_probe(r, d)
+        finally:
+            shutil.rmtree(d, ignore_errors=True)
+        print(json.dumps(rows, indent=1))
+        print('REPRODUCED' if r.agg.failures else 'not reproduced on the current tree')
+        return 1 if r.agg.failures else 0
     chk = subprocess.run(['/venv/bin/python', '-c', WITNESS_CODE % (os.path.join(REPO, 'src'), rec['ipkind'])],
-                         input=json.dumps([rec['text']]), capture_output=True, text=True)
+                         input=json.dumps([rec['text']]), capture_output=True, text=True, env=dict(os.environ, PYTHONHASHSEED=str(rec.get('hashseed', 0))))
     lib, ipa, ref, libplain = json.loads(chk.stdout.strip().splitlines()[-1])[0]
     if rec.get('term', '').endswith('()'):
         lib = libplain
     print('text %r: library accepts %s, reference %s, ipaddress %s' % (rec['text'], lib, ref, ipa))
     print('REPRODUCED' if lib != ref else 'not reproduced on the current tree')
     return 1 if lib != ref else 0
+
+
+FILE_PROBE = r'''
+import sys, json, os, tempfile, warnings
+warnings.simplefilter('ignore')
+sys.path.insert(0, %r)
+from pregex.meta.essentials import IPv4, IPv6
+scratch = %r
+planted = {'v4': ['10.20.30.40', '192.168.100.254', '1.2.3.4', '255.255.255.255'], 'v6': ['2001:db8::8a2e:370:7334', 'fe80::1', '::ffff:102:304', '1:2:3:4:5:6:7:8']}
+out = []
+for kind, mk in (('v4', IPv4), ('v6', IPv6)):
+    # an address across every multiple of 8192 and of 65536 up to 140 000, split so that the part before the boundary is itself an address
+    text = []
+    n = 0
+    bounds = sorted(set(list(range(8192, 140000, 8192)) + [65536, 131072]))
+    k = 0
+    for b in bounds:
+        a = planted[kind][k %% len(planted[kind])]
+        k += 1
+        cut = len(a) - 1                       # the last character falls behind the boundary
+        fill = b - cut - n - 1
+        if fill < 2:
+            continue
+        line = ('lorem ipsum ' * (fill // 12 + 1))[:fill - 1] + ' '
+        text.append(line); n += len(line)
+        text.append(a + '\n'); n += len(a) + 1
+    text = ''.join(text) + 'tail ' + planted[kind][0] + ' end'
+    fd, path = tempfile.mkstemp(suffix='.txt', dir=scratch)
+    with os.fdopen(fd, 'w', encoding='utf-8', newline='') as fh:
+        fh.write(text)
+    for compiled in (False, True):
+        p = mk()
+        if compiled:
+            p.compile()
+        s_res = p.get_matches(text)
+        f_res = p.get_matches(path, is_path=True)
+        f_it = list(p.iterate_matches(path, is_path=True))
+        f_pos = p.get_matches_and_pos(path, is_path=True)
+        s_pos = p.get_matches_and_pos(text)
+        ok_planted = all(text[s:e] == m for m, s, e in s_pos) and len(s_res) == k + 1
+        out.append({'kind': kind, 'compiled': compiled, 'chars': len(text), 'string_matches': len(s_res), 'file_matches': len(f_res),
+                    'same': s_res == f_res and f_it == s_res and f_pos == s_pos, 'planted_found': ok_planted,
+                    'first_difference': next(([a, b] for a, b in zip(s_res + [None], f_res + [None]) if a != b), None)})
+    os.unlink(path)
+print(json.dumps(out))
+'''
+
+
+def file_probe(res, scratch):
+    """C18, embedded occurrences in a long file: addresses placed across every multiple of 8 192 and 65 536 characters of a
+    140 000-character file must be found exactly as in the same text given as a string (and all planted addresses are found)."""
+    from .farm import REPO
+    chk = subprocess.run(['/venv/bin/python', '-c', FILE_PROBE % (os.path.join(REPO, 'src'), scratch)], capture_output=True, text=True)
+    if chk.returncode != 0:
+        res.agg.failures.append({'property': 'C18', 'kind': 'ipfile', 'replay_module': 'ipproduct', 'facet': 'crash', 'term': 'IPv4()/IPv6() on a file source',
+                                 'spelling': 'class', 'detail': {'stderr': chk.stderr[-600:]}})
+        return []
+    rows = json.loads(chk.stdout.strip().splitlines()[-1])
+    for r in rows:
+        res.agg.stats['cases'] = res.agg.stats.get('cases', 0) + 1
+        if not r['same'] or not r['planted_found']:
+            res.agg.failures.append({'property': 'C18', 'kind': 'ipfile', 'replay_module': 'ipproduct', 'facet': 'long-file',
+                                     'term': ('IPv4()' if r['kind'] == 'v4' else 'IPv6()') + (' compiled' if r['compiled'] else ''), 'spelling': 'class',
+                                     'detail': r})
+    return rows
